@@ -12,7 +12,11 @@ import (
 
 // ---------------------------------------------------------------- environments
 
-type varInfo struct{ coq, typ string }
+type varInfo struct {
+	coq, typ string
+	alias    ast.Expr // the variable stands for this path (a local bound to a part of the state)
+	seq      int      // order of declaration (loop-carried variables are listed in this order)
+}
 
 type env struct {
 	t    *T
@@ -23,9 +27,18 @@ type env struct {
 var coqKeywords = map[string]bool{"as": true, "at": true, "cofix": true, "else": true, "end": true, "exists": true,
 	"fix": true, "for": true, "forall": true, "fun": true, "if": true, "in": true, "let": true, "match": true, "mod": true,
 	"return": true, "then": true, "using": true, "where": true, "with": true, "Set": true, "Prop": true, "Type": true,
-	"nil": true, "cons": true, "fst": true, "snd": true, "pair": true, "tt": true, "true": true, "false": true,
+	"nil": true, "cons": true, "fst": true, "snd": true, "pair": true, "tt": true, "events_": true, "true": true, "false": true,
 	"Some": true, "None": true, "inl": true, "inr": true, "negb": true, "andb": true, "orb": true, "length": true,
 	"map": true, "app": true, "Z": true, "bool": true, "list": true, "unit": true, "option": true}
+
+// bindAlias: the Go variable is another name for a path into the state
+func (e *env) bindAlias(goName, typ string, path ast.Expr) *env {
+	n, _ := e.bind(goName, typ)
+	v := n.vars[goName]
+	v.alias = path
+	n.vars[goName] = v
+	return n
+}
 
 func newEnv(t *T) *env { return &env{t: t, vars: map[string]varInfo{}, used: map[string]bool{}} }
 
@@ -41,7 +54,7 @@ func (e *env) bind(goName, typ string) (*env, string) {
 	for k := range e.used {
 		n.used[k] = true
 	}
-	n.vars[goName] = varInfo{coq, typ}
+	n.vars[goName] = varInfo{coq: coq, typ: typ, seq: len(e.used)}
 	n.used[coq] = true
 	return n, coq
 }
@@ -55,6 +68,10 @@ type fctx struct {
 	panics   bool
 	sawWrite bool // flags discovered in this pass
 	sawPanic bool
+	emits    bool // the function calls event callbacks (assumed / discovered)
+	sawEmit  bool
+	inputs   map[string]token.Pos
+	stateCoq string // Coq name of the state variable
 	guards   []string
 	clock    map[token.Pos]int // clock call sites -> number of readings
 	oracles  map[string]bool
@@ -123,9 +140,21 @@ func (t *T) translateFunc(fi *funcInfo, from token.Pos) {
 	}
 	var body string
 	var f *fctx
-	stateful, panics := false, false
+	stateful, panics, emits := false, false, false
+	stmts := d.Body.List
+	if fi.cfg.LoopBody {
+		fs, ok := (ast.Stmt)(nil), false
+		if len(stmts) == 1 {
+			fs, ok = stmts[0], true
+		}
+		loop, isFor := fs.(*ast.ForStmt)
+		if !ok || !isFor || loop.Init != nil || loop.Cond != nil || loop.Post != nil {
+			t.fail(d.Pos(), "loop_body: the function is not a single `for { … }`")
+		}
+		stmts = loop.Body.List
+	}
 	for pass := 0; ; pass++ {
-		f = &fctx{t: t, fi: fi, stateful: stateful, panics: panics, clock: map[token.Pos]int{}, oracles: map[string]bool{}}
+		f = &fctx{t: t, fi: fi, stateful: stateful, panics: panics, emits: emits, clock: map[token.Pos]int{}, oracles: map[string]bool{}, inputs: map[string]token.Pos{}}
 		e := newEnv(t)
 		if fi.recvName != "" {
 			e, _ = e.bind(fi.recvName, "*"+fi.recvStruct)
@@ -136,21 +165,28 @@ func (t *T) translateFunc(fi *funcInfo, from token.Pos) {
 			}
 			e, _ = e.bind(p.name, p.typ)
 		}
-		body = f.block(d.Body.List, e, 2, func(e2 *env, ind int) string {
+		if sn := f.stateName(); sn != "" {
+			f.stateCoq = e.vars[sn].coq
+		}
+		body = f.block(stmts, e, 2, func(e2 *env, ind int) string {
 			if len(fi.results) > 0 {
 				t.fail(d.Body.Rbrace, "missing return")
 			}
 			return sp(ind) + f.ret(nil, e2)
 		})
-		if f.sawWrite == stateful && f.sawPanic == panics {
+		if emits {
+			body = sp(2) + "let events_ := [] in\n" + body
+		}
+		if f.sawWrite == stateful && f.sawPanic == panics && f.sawEmit == emits {
 			break
 		}
+		emits = emits || f.sawEmit
 		if pass > 3 {
 			t.fail(d.Pos(), "internal: effect flags of %s do not settle", fi.coq)
 		}
 		stateful, panics = f.sawWrite || stateful, f.sawPanic || panics
 	}
-	fi.stateful, fi.panics = stateful, panics
+	fi.stateful, fi.panics, fi.emits = stateful, panics, emits
 	// clock readings: one parameter per reading, in source order
 	var sites []token.Pos
 	for p := range f.clock {
@@ -187,14 +223,13 @@ func (t *T) translateFunc(fi *funcInfo, from token.Pos) {
 		in := t.cfg.Intrinsics[o]
 		sig = append(sig, fmt.Sprintf("(%s : %s)", in.Coq, in.Type))
 	}
-	if fi.recvName != "" {
-		sig = append(sig, fmt.Sprintf("(%s : %s)", f.recvCoq(), t.structs[fi.recvStruct].cfg.Coq))
-	} else if fi.recvStruct != "" {
-		t.fail(d.Pos(), "unnamed receiver")
-	}
 	e := newEnv(t)
 	if fi.recvName != "" {
-		e, _ = e.bind(fi.recvName, "")
+		var recvCoqName string
+		e, recvCoqName = e.bind(fi.recvName, "")
+		sig = append(sig, fmt.Sprintf("(%s : %s)", recvCoqName, t.structs[fi.recvStruct].cfg.Coq))
+	} else if fi.recvStruct != "" {
+		t.fail(d.Pos(), "unnamed receiver")
 	}
 	for _, p := range fi.params {
 		if p.name == "_" {
@@ -212,14 +247,14 @@ func (t *T) translateFunc(fi *funcInfo, from token.Pos) {
 	for _, r := range fi.results {
 		rts = append(rts, paren(t.coqType(d.Pos(), r)))
 	}
+	if emits {
+		rts = append(rts, "(list gostring)")
+	}
 	resT := "unit"
 	if len(rts) > 0 {
 		resT = strings.Join(rts, " * ")
 	}
-	stT := "unit"
-	if fi.recvStruct != "" {
-		stT = t.structs[fi.recvStruct].cfg.Coq
-	}
+	stT := f.stateCoqType()
 	var retT string
 	switch {
 	case panics:
@@ -243,10 +278,20 @@ func (t *T) translateFunc(fi *funcInfo, from token.Pos) {
 		notes = append(notes, fmt.Sprintf("clock readings: %s", strings.Join(clockParams, ", ")))
 	}
 	if stateful {
-		notes = append(notes, "returns the updated receiver first")
+		if fi.cfg.State != "" {
+			notes = append(notes, "returns the updated "+fi.cfg.State+" (threaded through as state) first")
+		} else {
+			notes = append(notes, "returns the updated receiver first")
+		}
 	}
 	if panics {
 		notes = append(notes, "can panic")
+	}
+	if emits {
+		notes = append(notes, "returns the list of emitted events (callbacks called, in order) last")
+	}
+	if fi.cfg.LoopBody {
+		notes = append(notes, "ONE iteration of the function's `for { … }` loop")
 	}
 	note := ""
 	if len(notes) > 0 {
@@ -260,10 +305,39 @@ func (t *T) translateFunc(fi *funcInfo, from token.Pos) {
 
 func clockMark(p token.Pos, j int) string { return fmt.Sprintf("@CLOCK%d.%d@", int(p), j) }
 
-func (f *fctx) recvCoq() string { return f.fi.recvName }
+// the variable threaded through as state: the receiver, or the parameter named by "state"
+func (f *fctx) stateName() string {
+	if f.fi.cfg.State != "" {
+		return f.fi.cfg.State
+	}
+	return f.fi.recvName
+}
+
+func (f *fctx) recvCoq() string { return f.stateCoq }
+
+func (f *fctx) isState(name string) bool { return name != "" && name == f.stateName() }
+
+func (f *fctx) stateCoqType() string {
+	t := f.t
+	if f.fi.cfg.State != "" {
+		for _, p := range f.fi.params {
+			if p.name == f.fi.cfg.State {
+				return t.coqType(f.fi.decl.Pos(), p.typ)
+			}
+		}
+		t.fail(f.fi.decl.Pos(), "state parameter %s not found", f.fi.cfg.State)
+	}
+	if f.fi.recvStruct != "" {
+		return t.structs[f.fi.recvStruct].cfg.Coq
+	}
+	return "unit"
+}
 
 // the term a `return` produces
 func (f *fctx) ret(results []string, e *env) string {
+	if f.emits {
+		results = append(append([]string{}, results...), "events_")
+	}
 	res := "tt"
 	if len(results) > 0 {
 		res = "(" + strings.Join(results, ", ") + ")"
@@ -272,7 +346,7 @@ func (f *fctx) ret(results []string, e *env) string {
 		}
 	}
 	st := "tt"
-	if f.fi.recvName != "" {
+	if f.stateName() != "" {
 		st = f.recvCoq()
 	}
 	var term string
@@ -292,7 +366,7 @@ func (f *fctx) ret(results []string, e *env) string {
 func (f *fctx) panicTerm() string {
 	f.sawPanic = true
 	st := "tt"
-	if f.fi.recvName != "" {
+	if f.stateName() != "" {
 		st = f.recvCoq()
 	}
 	return f.leave("Panicked " + st)
@@ -341,6 +415,16 @@ func (f *fctx) scoped(list []ast.Stmt, e *env, ind int, k cont) string {
 
 func (f *fctx) stmt(s ast.Stmt, e *env, ind int, k cont) string {
 	t := f.t
+	if len(t.cfg.SkipStmts) > 0 {
+		p, q := t.fset.Position(s.Pos()), t.fset.Position(s.End())
+		text := string(t.src[p.Filename][p.Offset:q.Offset])
+		for i, sk := range t.cfg.SkipStmts {
+			if sk.Text == text {
+				t.skipped[i] = true
+				return k(e, ind) // dropped on purpose (configuration), listed in the header
+			}
+		}
+	}
 	switch s := s.(type) {
 	case *ast.EmptyStmt:
 		return k(e, ind)
@@ -396,6 +480,12 @@ func (f *fctx) stmt(s ast.Stmt, e *env, ind int, k cont) string {
 		case "skip":
 			f.checkSkippable(call, e)
 			return k(e, ind)
+		case "emit":
+			if len(call.Args) != 0 || len(f.loop) > 0 {
+				t.fail(call.Pos(), "event callback with arguments / inside a loop")
+			}
+			f.sawEmit = true
+			return fmt.Sprintf("%slet events_ := events_ ++ [%s] in\n", sp(ind), c.in.Coq) + k(e, ind)
 		}
 		return f.callStmt(call, c, nil, false, e, ind, k)
 	case *ast.DeferStmt:
@@ -521,6 +611,17 @@ func (f *fctx) assignStmt(s *ast.AssignStmt, e *env, ind int, k cont) string {
 // assign handles `lhs… := rhs…`, `lhs… = rhs…` and `var lhs… T = rhs…`.
 func (f *fctx) assign(pos token.Pos, lhs, rhs []ast.Expr, define bool, declT string, e *env, ind int, k cont) string {
 	t := f.t
+	if define && len(lhs) == 1 && len(rhs) == 1 {
+		// x := <path into the state> of a reference type: x is another name for that path
+		if id, ok := lhs[0].(*ast.Ident); ok && id.Name != "_" && f.isStatePath(rhs[0], e) {
+			if ty := f.typeOf(rhs[0], e); ty != "" && f.isRef(ty) {
+				if _, exists := e.vars[id.Name]; exists && f.declaredHere(id) {
+					t.fail(pos, "redeclaration of %s as an alias", id.Name)
+				}
+				return k(e.bindAlias(id.Name, ty, rhs[0]), ind)
+			}
+		}
+	}
 	if len(rhs) == 1 {
 		// forms whose right-hand side is not a plain expression
 		switch r := unparen(rhs[0]).(type) {
@@ -701,19 +802,67 @@ func (f *fctx) assignTo(l ast.Expr, term, ty string, e *env, define bool) (strin
 		if define {
 			t.fail(l.Pos(), "no new variables on left side of :=")
 		}
+		if v.alias != nil {
+			t.fail(l.Pos(), "assignment to %s, a local that stands for a part of the state", id.Name)
+		}
+		if f.isState(id.Name) {
+			t.fail(l.Pos(), "assignment to the state variable %s itself", id.Name)
+		}
 		return fmt.Sprintf("let %s := %s in", v.coq, t.conv(l.Pos(), term, ty, v.typ)), e
 	}
 	if define {
 		t.fail(l.Pos(), "non-name on left side of :=")
 	}
+	return f.store(l, term, ty, e), e
+}
+
+// store: `let root := <root with the place replaced> in` for an assignable path.
+// Only the state variable may be changed through a reference; other roots must be values.
+func (f *fctx) store(l ast.Expr, term, ty string, e *env) string {
+	t := f.t
 	root, upd, placeT := f.place(l, e)
 	v := e.vars[root]
-	if root == f.fi.recvName && v.typ == "*"+f.fi.recvStruct {
+	if f.isState(root) {
 		f.sawWrite = true
-	} else if strings.HasPrefix(v.typ, "*") {
-		t.fail(l.Pos(), "store through pointer %s (only the receiver is threaded as state)", root)
+	} else if f.isRef(v.typ) {
+		t.fail(l.Pos(), "change through %s of reference type %s, which is not the state variable (aliasing is not modelled)", root, v.typ)
 	}
-	return fmt.Sprintf("let %s := %s in", v.coq, upd(t.conv(l.Pos(), term, ty, placeT))), e
+	return fmt.Sprintf("let %s := %s in", v.coq, upd(t.conv(l.Pos(), term, ty, placeT)))
+}
+
+// isStatePath: the state variable followed by accessor calls without arguments and field selections
+func (f *fctx) isStatePath(x ast.Expr, e *env) bool {
+	switch y := unparen(x).(type) {
+	case *ast.Ident:
+		v, ok := e.vars[y.Name]
+		return ok && v.alias == nil && f.isState(y.Name)
+	case *ast.SelectorExpr:
+		if f.t.structOf(f.typeOf(y.X, e)) == nil {
+			return false
+		}
+		return f.isStatePath(y.X, e)
+	case *ast.CallExpr:
+		s, ok := unparen(y.Fun).(*ast.SelectorExpr)
+		if !ok || len(y.Args) != 0 || !f.isStatePath(s.X, e) {
+			return false
+		}
+		c := f.resolve(y, e)
+		return c.kind == "id" || c.kind == "field"
+	}
+	return false
+}
+
+// isRef: Go types whose values are references (a copy shares what it refers to)
+func (f *fctx) isRef(goT string) bool {
+	if strings.HasPrefix(goT, "*") || strings.HasPrefix(goT, "map[") {
+		return true
+	}
+	for _, r := range f.t.cfg.RefTypes {
+		if r == goT {
+			return true
+		}
+	}
+	return false
 }
 
 // place analyses an assignable path x.f.g / x.f[k]: the root variable, a function
@@ -726,7 +875,26 @@ func (f *fctx) place(l ast.Expr, e *env) (root string, upd func(string) string, 
 		if !ok {
 			t.fail(l.Pos(), "%s is not a local variable", l.Name)
 		}
+		if v.alias != nil {
+			return f.place(v.alias, e)
+		}
 		return l.Name, func(nv string) string { return nv }, v.typ
+	case *ast.CallExpr:
+		c := f.resolve(l, e)
+		switch c.kind {
+		case "id":
+			return f.place(c.recv, e)
+		case "field": // accessor: a part of its receiver
+			if len(l.Args) != 0 || len(c.in.Ret) != 1 {
+				t.fail(l.Pos(), "accessor with arguments")
+			}
+			r, up, _ := f.place(c.recv, e)
+			cur, _ := f.expr(c.recv, e)
+			return r, func(nv string) string {
+				return up(fmt.Sprintf("set_%s %s %s", c.in.Coq, paren(nv), paren(cur)))
+			}, c.in.Ret[0]
+		}
+		t.fail(l.Pos(), "a call is not an assignable path")
 	case *ast.SelectorExpr:
 		r, up, ty := f.place(l.X, e)
 		si := t.structOf(ty)
@@ -886,7 +1054,7 @@ func (f *fctx) rangeStmt(s *ast.RangeStmt, e *env, ind int, k cont) string {
 	})
 	var carriedGo []string
 	for _, name := range sortedKeys(e.vars) {
-		if name == f.fi.recvName {
+		if f.isState(name) {
 			if f.stateful && (assigned[name] || calls) {
 				carriedGo = append(carriedGo, name)
 			}
@@ -896,6 +1064,13 @@ func (f *fctx) rangeStmt(s *ast.RangeStmt, e *env, ind int, k cont) string {
 			carriedGo = append(carriedGo, name)
 		}
 	}
+	// in order of declaration (robust against renaming), the state variable first
+	sort.SliceStable(carriedGo, func(i, j int) bool {
+		if f.isState(carriedGo[i]) != f.isState(carriedGo[j]) {
+			return f.isState(carriedGo[i])
+		}
+		return e.vars[carriedGo[i]].seq < e.vars[carriedGo[j]].seq
+	})
 	var carried []string
 	for _, g := range carriedGo {
 		carried = append(carried, e.vars[g].coq)
@@ -1121,6 +1296,14 @@ func (f *fctx) checkPure(top ast.Expr, e *env) {
 		case *ast.Ident, *ast.BasicLit:
 		case *ast.SelectorExpr:
 			walk(x.X)
+		case *ast.CompositeLit:
+			for _, el := range x.Elts {
+				if kv, ok := el.(*ast.KeyValueExpr); ok {
+					walk(kv.Value)
+				} else {
+					walk(el)
+				}
+			}
 		case *ast.BinaryExpr:
 			walk(x.X)
 			walk(x.Y)
@@ -1135,7 +1318,7 @@ func (f *fctx) checkPure(top ast.Expr, e *env) {
 		case *ast.CallExpr:
 			c := f.resolve(x, e)
 			switch c.kind {
-			case "skip", "id", "fn", "conv", "const", "errtoken", "sprintf", "oracle":
+			case "skip", "id", "fn", "conv", "const", "errtoken", "sprintf", "oracle", "field":
 			case "builtin":
 				if c.key == "delete" {
 					f.t.fail(x.Pos(), "delete inside a dropped logging call")
@@ -1199,6 +1382,9 @@ func (f *fctx) callTerm(call *ast.CallExpr, c *callee, e *env) (term string, res
 	case "func":
 		fi := c.fn
 		t.translateFunc(fi, call.Pos())
+		if fi.emits {
+			t.fail(call.Pos(), "call of %s, which emits events (not supported in a callee)", fi.coq)
+		}
 		var parts []string
 		parts = append(parts, fi.coq)
 		for _, o := range fi.oracles {
@@ -1214,8 +1400,11 @@ func (f *fctx) callTerm(call *ast.CallExpr, c *callee, e *env) (term string, res
 			obj = c.recv
 		}
 		var want []string
-		for _, p := range fi.params {
+		for i, p := range fi.params {
 			want = append(want, p.typ)
+			if fi.cfg.State != "" && p.name == fi.cfg.State && i < len(call.Args) {
+				obj = call.Args[i] // the callee threads this argument through as its state
+			}
 		}
 		parts = append(parts, f.args(call, want, e)...)
 		if fi.nclock > 0 {
@@ -1225,7 +1414,7 @@ func (f *fctx) callTerm(call *ast.CallExpr, c *callee, e *env) (term string, res
 			}
 		}
 		return strings.Join(parts, " "), fi.results, obj
-	case "fn", "mut":
+	case "fn", "mut", "field":
 		in := c.in
 		parts := []string{in.Coq}
 		args := call.Args
@@ -1266,6 +1455,19 @@ func (f *fctx) callTerm(call *ast.CallExpr, c *callee, e *env) (term string, res
 		f.oracles[c.key] = true
 		parts := append([]string{c.in.Coq}, f.args(call, c.in.Args, e)...)
 		return strings.Join(parts, " "), c.in.Ret, nil
+	case "input":
+		if len(call.Args) != 0 {
+			t.fail(call.Pos(), "input callback with arguments")
+		}
+		if p, seen := f.inputs[c.key]; seen && p != call.Pos() {
+			t.fail(call.Pos(), "the input %s is read at two places of one function", c.key)
+		}
+		if len(f.loop) > 0 {
+			t.fail(call.Pos(), "input read inside a loop")
+		}
+		f.inputs[c.key] = call.Pos()
+		f.oracles[c.key] = true
+		return c.in.Coq, c.in.Ret, nil
 	case "const":
 		return c.in.Coq, c.in.Ret, nil
 	case "errtoken":
@@ -1418,10 +1620,8 @@ func (f *fctx) callStmt(call *ast.CallExpr, c *callee, lhs []ast.Expr, define bo
 	if (changes || panics) && len(gs) > 0 {
 		t.fail(call.Pos(), "a call with effects and a possible panic of its arguments in one statement")
 	}
-	if changes && obj != nil && rootIdent(stripAddr(obj)) == f.fi.recvName && f.fi.recvName != "" {
-		if v, ok := e.vars[f.fi.recvName]; ok && v.typ == "*"+f.fi.recvStruct {
-			f.sawWrite = true // the receiver (or a part of it) is replaced by the callee's result
-		}
+	if changes && obj != nil && f.isState(f.rootVar(stripAddr(obj), e)) {
+		f.sawWrite = true // the state (or a part of it) is replaced by the callee's result
 	}
 	if lhs == nil {
 		for range results {
@@ -1459,13 +1659,12 @@ func (f *fctx) callStmt(call *ast.CallExpr, c *callee, lhs []ast.Expr, define bo
 			if objT == "" {
 				_, objT = f.expr(stripAddr(obj), e2)
 			}
-			line, e3 := f.assignTo(stripAddr(obj), objTmp, objT, e2, false)
-			return sp(ind) + line + "\n", e3
+			return sp(ind) + f.store(stripAddr(obj), objTmp, objT, e2) + "\n", e2
 		}
 		if panics {
 			// match f … with Panicked s => Panicked <receiver with s stored> | Normal s r => … end
-			if obj == nil || !isIdent(obj) || rootIdent(obj) != f.fi.recvName {
-				t.fail(call.Pos(), "a call that can panic on anything but the receiver itself")
+			if obj == nil || !isIdent(obj) || !f.isState(rootIdent(obj)) {
+				t.fail(call.Pos(), "a call that can panic on anything but the state variable itself")
 			}
 			rc := f.recvCoq()
 			inner := f.bindResults(call.Pos(), lhs, "res", results, define, e, ind+4, k)
@@ -1486,9 +1685,9 @@ func (f *fctx) callStmt(call *ast.CallExpr, c *callee, lhs []ast.Expr, define bo
 		var names []string
 		direct := false
 		if id, ok := unparen(stripAddr(obj)).(*ast.Ident); ok {
-			if v, isVar := e.vars[id.Name]; isVar && (id.Name == f.fi.recvName || !strings.HasPrefix(v.typ, "*")) {
+			if v, isVar := e.vars[id.Name]; isVar && v.alias == nil && (f.isState(id.Name) || !f.isRef(v.typ)) {
 				objTmp, direct = v.coq, true
-				if id.Name == f.fi.recvName {
+				if f.isState(id.Name) {
 					f.sawWrite = true
 				}
 			}
@@ -1524,7 +1723,37 @@ func storeObjLine(f *fctx, obj ast.Expr, term string, e *env, call *ast.CallExpr
 	if objT == "" {
 		_, objT = f.expr(o, e)
 	}
-	return f.assignTo(o, term, objT, e, false)
+	return f.store(o, term, objT, e), e
+}
+
+// rootVar: the variable an assignable path starts from (aliases followed)
+func (f *fctx) rootVar(x ast.Expr, e *env) string {
+	for {
+		switch y := unparen(x).(type) {
+		case *ast.Ident:
+			if v, ok := e.vars[y.Name]; ok && v.alias != nil {
+				x = v.alias
+				continue
+			}
+			return y.Name
+		case *ast.SelectorExpr:
+			x = y.X
+		case *ast.IndexExpr:
+			x = y.X
+		case *ast.StarExpr:
+			x = y.X
+		case *ast.UnaryExpr:
+			x = y.X
+		case *ast.CallExpr:
+			if s, ok := unparen(y.Fun).(*ast.SelectorExpr); ok {
+				x = s.X
+				continue
+			}
+			return ""
+		default:
+			return ""
+		}
+	}
 }
 
 // ---------------------------------------------------------------- expressions
@@ -1599,6 +1828,10 @@ func (f *fctx) expr(x ast.Expr, e *env) (string, string) {
 			return "", "untyped nil"
 		}
 		if v, ok := e.vars[x.Name]; ok {
+			if v.alias != nil {
+				term, _ := f.expr(v.alias, e)
+				return term, v.typ
+			}
 			return v.coq, v.typ
 		}
 		if en, ok := t.enumOf[x.Name]; ok {
@@ -1749,9 +1982,19 @@ func (f *fctx) composite(x *ast.CompositeLit, e *env) (string, string) {
 		t.fail(x.Pos(), "composite literal of %s", ty)
 	}
 	vals := map[string]string{}
+	ignored := map[string]bool{}
+	if si.extern {
+		for _, ig := range t.cfg.Externs[si.name].Ignore {
+			ignored[ig] = true
+		}
+	}
 	for i, el := range x.Elts {
 		if kv, ok := el.(*ast.KeyValueExpr); ok {
 			name := kv.Key.(*ast.Ident).Name
+			if ignored[name] {
+				f.checkPure(kv.Value, e) // dropped field: its value must be free of effects
+				continue
+			}
 			v, vt := f.expr(kv.Value, e)
 			ft := ""
 			for _, fl := range si.fields {
@@ -1762,7 +2005,7 @@ func (f *fctx) composite(x *ast.CompositeLit, e *env) (string, string) {
 			vals[name] = t.conv(el.Pos(), v, vt, ft)
 			continue
 		}
-		if len(x.Elts) != len(si.fields) {
+		if len(x.Elts) != len(si.fields) || si.extern {
 			t.fail(x.Pos(), "positional literal of %s with %d of %d fields", ty, len(x.Elts), len(si.fields))
 		}
 		v, vt := f.expr(el, e)
@@ -1783,6 +2026,7 @@ func (f *fctx) composite(x *ast.CompositeLit, e *env) (string, string) {
 			t.fail(x.Pos(), "literal sets field %s.%s, which is not part of the record", si.name, name)
 		}
 	}
+	_ = ignored
 	return strings.Join(parts, " "), ty
 }
 
